@@ -8,6 +8,10 @@ def rules(ctx):
     S.c01_r6_checksums_final(ctx)
     S.c01_r5_cow(ctx)
     S.walker_rules(ctx)
+    S.full_range_rules(ctx)
     S.retained_checksum_rules(ctx)
     S.c08_r8_flush_keeps_page(ctx)
     S.c12_tree_rules(ctx)
+    S.staged_root_rules(ctx)
+    # a page released while the restored tree still references it is handed out again: referenced twice
+    S.c06_r6_restore(ctx)
